@@ -636,6 +636,13 @@ def main(ctx, replay):
             C.report(ctx, "strfunc:%s" % mm["func"], "Coq model of %s differs from Go on %s: model %r, Go %r" % (mm["func"], L.show(mm["input"]), mm["model"], mm["impl"]),
                      {"kind": "request", "case": mm})
 
+    # ---- the allowlists in force after a management mutation: the operator has edited pull authentication in the file (not yet reloaded),
+    #      then an Admin-API managed-endpoint upsert/delete is applied - it rewrites and reloads THAT file, so every pull endpoint must
+    #      answer by the allowlists of the file now in force (route's own tokens when it declares any, otherwise the global ones)
+    st_stats = staged_auth_then_mutation(ctx, info, rng)
+    dist["staged_auth_then_mutation"] = st_stats
+    evaluations += st_stats["probes"]
+
     cov.update({
         "evaluations": evaluations,
         "distinct_nontrivial": len(nontrivial),
@@ -647,6 +654,86 @@ def main(ctx, replay):
     })
     return C.conclude(ctx, info, cov, assumptions, proof_broken=proof_broken,
                       searched_note="%d requests / compile cases on the implementation showed no property failure" % evaluations)
+
+
+STAGED_BASE = """ingress {
+  listen ":18080"
+}
+pull_api {
+  listen ":19443"
+  auth token "raw:pt-global"
+}
+admin_api { listen "127.0.0.1:19444" }
+
+"/m1" {
+  application "app1"
+  endpoint_name "ep1"
+  pull { path /pull/m1 }
+}
+"/m2" {
+  pull { path /pull/m2 }
+}
+"""
+
+
+def staged_auth_then_mutation(ctx, info, rng):
+    import re as _re
+    base = STAGED_BASE
+    m4 = '"/m4" {\n  pull {\n    path /pull/m4\n    auth token "raw:pt-m4"\n  }\n}\n'
+    staged = {
+        "new-route-own-token": base + m4,
+        "route-gets-own-token": base.replace("pull { path /pull/m2 }", 'pull {\n    path /pull/m2\n    auth token "raw:pt-m2"\n  }'),
+        "global-token-rotated": base.replace("raw:pt-global", "raw:pt-global2"),
+        "no-global-every-route-own": base.replace('  auth token "raw:pt-global"\n', "")
+                                         .replace("pull { path /pull/m1 }", 'pull {\n    path /pull/m1\n    auth token "raw:pt-m1"\n  }')
+                                         .replace("pull { path /pull/m2 }", 'pull {\n    path /pull/m2\n    auth token "raw:pt-m2"\n  }') + m4,
+        "own-token-revoked": None,   # running: /m2 has its own token; staged: back to the global one
+    }
+    tokens = ["", "pt-global", "pt-global2", "pt-m1", "pt-m2", "pt-m4", "PT-GLOBAL", "pt-globa", "pt-m4x"]
+    cases = []
+    for name, text in staged.items():
+        running = base
+        if name == "own-token-revoked":
+            running = base.replace("pull { path /pull/m2 }", 'pull {\n    path /pull/m2\n    auth token "raw:pt-m2"\n  }')
+            text = base
+        paths = sorted(set(_re.findall(r"path (/pull/m\d)", text)))
+        probes = {"ingress": [], "pull": [{"path": p_, "token": t} for p_ in paths for t in tokens], "admin": [], "worker": [], "seed_routes": ["/m1", "/m2", "/m4"]}
+        for kind, app_, ep in (("upsert", "app2", "ep2"), ("delete", "app1", "ep1")):
+            cases.append({"name": "%s:%s" % (name, kind), "expect": "applied", "config": running, "staged_file": text, "probes": probes,
+                          "mutation": {"kind": kind, "application": app_, "endpoint_name": ep, "route": "/m2"}, "_text": text})
+    rc, out, err = C.harness_run(info["hbin"], ["reload-mutate"], {"dir": os.path.join(ctx.scratch, "c11staged"), "cases": [{k: v for k, v in c.items() if not k.startswith("_")} for c in cases]},
+                                 timeout=600)
+    if rc != 0:
+        raise RuntimeError("reload-mutate (C11 staged pull auth) failed: " + err[-1500:])
+    stats = {"cases": len(cases), "probes": 0, "applied": 0, "authorized_probes": 0}
+    for c, r in zip(cases, json.loads(out)):
+        if r.get("setup_error"):
+            raise RuntimeError("staged case %s: %s" % (c["name"], r["setup_error"]))
+        if r.get("err") or not r.get("applied"):
+            # the mutation was refused: then nothing may have changed (C18's subject); here only applied mutations are judged
+            continue
+        stats["applied"] += 1
+        text = c["_text"]
+        glob = _re.findall(r'pull_api \{[^}]*?auth token "raw:([^"]+)"', text)
+        own = {}
+        for mroute in _re.finditer(r'pull \{\s*path (/pull/m\d)((?:\s*auth token "raw:[^"]+")*)\s*\}', text):
+            own[mroute.group(1)] = _re.findall(r'raw:([^"]+)', mroute.group(2))
+        lines = [l for l in (r.get("fp_after") or []) if l.startswith("pull[")]
+        for pr, line in zip(c["probes"]["pull"], lines):
+            stats["probes"] += 1
+            allow = own.get(pr["path"]) or glob
+            want_ok = pr["token"] != "" and pr["token"] in allow
+            stats["authorized_probes"] += 1 if want_ok else 0
+            mcode = _re.search(r"-> (\d+)", line)
+            code = int(mcode.group(1)) if mcode else -1
+            if (code == 200) != want_ok or (not want_ok and code != 401):
+                kind = "unauthorized-accepted" if code == 200 else ("authorized-refused" if want_ok else "refused-with-wrong-status")
+                C.report(ctx, "staged-auth-then-mutation:%s:%s" % (kind, c["name"].split(":")[0]),
+                         "after the managed-endpoint %s was applied on top of an edited file, POST %s/dequeue with token %r answers %d; the file in force gives this "
+                         "endpoint the allowlist %s (%s)" % (c["mutation"]["kind"], pr["path"], pr["token"], code, allow, "own tokens" if own.get(pr["path"]) else "global tokens"),
+                         {"kind": "fault_sequence", "case": {k: v for k, v in c.items() if not k.startswith("_") and k != "probes"}, "probe": pr, "observed": line,
+                          "all_pull_decisions": lines, "file_in_force": r.get("file_after") or text})
+    return stats
 
 
 def variant_class(rq, c):
